@@ -82,7 +82,7 @@ theorem hex_disjoint_unrotated (half hh R g : K) (sinT cosT : Nat → K) (n : In
   have A3 := hA 3 (by omega); have A4 := hA 4 (by omega); have A5 := hA 5 (by omega)
   have B0 := hB 0 (by omega); have B1 := hB 1 (by omega); have B2 := hB 2 (by omega)
   have B3 := hB 3 (by omega); have B4 := hB 4 (by omega); have B5 := hB 5 (by omega)
-  simp only [s0, c0, s1, c1, s2, c2, s3, c3, s4, c4, s5, c5, meshCoord, hexToRC, Bool.false_eq_true, if_false] at A0 A1 A2 A3 A4 A5 B0 B1 B2 B3 B4 B5
+  simp only [s0, c0, s1, c1, s2, c2, s3, c3, s4, c4, s5, c5, meshCoord, Gen.meshCoord, hexToRC, Bool.false_eq_true, if_false] at A0 A1 A2 A3 A4 A5 B0 B1 B2 B3 B4 B5
   have hw : 0 < (R + g / 2) * hh := mul_pos (by linarith) hhpos
   have hsum : ((a.1 : K) + (a.2.1 : K) + (a.2.2 : K) = 0) := by exact_mod_cast ha
   have hsumb : ((b.1 : K) + (b.2.1 : K) + (b.2.2 : K) = 0) := by exact_mod_cast hb
@@ -115,7 +115,7 @@ theorem hex_disjoint_rotated (half hh R g : K) (sinT cosT : Nat → K) (n : Int)
   have A3 := hA 3 (by omega); have A4 := hA 4 (by omega); have A5 := hA 5 (by omega)
   have B0 := hB 0 (by omega); have B1 := hB 1 (by omega); have B2 := hB 2 (by omega)
   have B3 := hB 3 (by omega); have B4 := hB 4 (by omega); have B5 := hB 5 (by omega)
-  simp only [s0, c0, s1, c1, s2, c2, s3, c3, s4, c4, s5, c5, meshCoord, hexToRC, if_true] at A0 A1 A2 A3 A4 A5 B0 B1 B2 B3 B4 B5
+  simp only [s0, c0, s1, c1, s2, c2, s3, c3, s4, c4, s5, c5, meshCoord, Gen.meshCoord, hexToRC, if_true] at A0 A1 A2 A3 A4 A5 B0 B1 B2 B3 B4 B5
   have hw : 0 < (R + g / 2) * hh := mul_pos (by linarith) hhpos
   have hsum : ((a.1 : K) + (a.2.1 : K) + (a.2.2 : K) = 0) := by exact_mod_cast ha
   have hsumb : ((b.1 : K) + (b.2.1 : K) + (b.2.2 : K) = 0) := by exact_mod_cast hb
@@ -181,7 +181,7 @@ theorem hex_extent_unrotated (half hh R ρ : K) (sinT cosT : Nat → K) (size : 
   obtain ⟨s0, c0, s1, c1, s2, c2, s3, c3, s4, c4, s5, c5⟩ := hT
   have A0 := hin 0 (by omega); have A1 := hin 1 (by omega); have A2 := hin 2 (by omega)
   have A3 := hin 3 (by omega); have A4 := hin 4 (by omega); have A5 := hin 5 (by omega)
-  simp only [s0, c0, s1, c1, s2, c2, s3, c3, s4, c4, s5, c5, meshCoord, hexToRC, Bool.false_eq_true, if_false] at A0 A1 A2 A3 A4 A5
+  simp only [s0, c0, s1, c1, s2, c2, s3, c3, s4, c4, s5, c5, meshCoord, Gen.meshCoord, hexToRC, Bool.false_eq_true, if_false] at A0 A1 A2 A3 A4 A5
   refine ⟨by linarith [A1], by linarith [A4], ?_, ?_⟩
   · have : (((j : K) - ((size / 2 : Int) : K)) - ρ * (3 / 2 * (a.1 : K))) * hh ≤ R * hh := by linarith [A0, A5]
     exact le_of_mul_le_mul_right this hhpos
@@ -255,7 +255,7 @@ theorem hex_extent_rotated (half hh R ρ : K) (sinT cosT : Nat → K) (size : In
   obtain ⟨s0, c0, s1, c1, s2, c2, s3, c3, s4, c4, s5, c5⟩ := hT
   have A0 := hin 0 (by omega); have A1 := hin 1 (by omega); have A2 := hin 2 (by omega)
   have A3 := hin 3 (by omega); have A4 := hin 4 (by omega); have A5 := hin 5 (by omega)
-  simp only [s0, c0, s1, c1, s2, c2, s3, c3, s4, c4, s5, c5, meshCoord, hexToRC, if_true] at A0 A1 A2 A3 A4 A5
+  simp only [s0, c0, s1, c1, s2, c2, s3, c3, s4, c4, s5, c5, meshCoord, Gen.meshCoord, hexToRC, if_true] at A0 A1 A2 A3 A4 A5
   refine ⟨by linarith [A0], by linarith [A3], ?_, ?_⟩
   · have : (((i : K) - ((size / 2 : Int) : K)) + ρ * (3 / 2 * (a.2.1 : K))) * hh ≤ R * hh := by linarith [A1, A2]
     exact le_of_mul_le_mul_right this hhpos
@@ -301,6 +301,45 @@ theorem hex_border_rotated (half hh R g pad : K) (sinT cosT : Nat → K) (size :
   have r1 : (i : K) - ((size / 2 : Int) : K) ≤ (2 * (k : K) + 1) * (R * hh) + k * g := by linarith [e3, t3, t4, t6', kR1, kg]
   have r2 : -((i : K) - ((size / 2 : Int) : K)) ≤ (2 * (k : K) + 1) * (R * hh) + k * g := by linarith [e4, t3, t4, t6, kR1, kg]
   exact ⟨index_clear_of_border size i _ pad hpad hE r1 r2, index_clear_of_border size j _ pad hpad hE c1 c2⟩
+
+
+
+theorem kf_vertex_pixel (half hh : K) (sinT cosT : Nat → K) (n : Int) (R : ℕ) (hhpos : 0 < hh)
+    (hT : sinT 0 = 1 / 2 ∧ cosT 0 = hh ∧ sinT 1 = 1 ∧ cosT 1 = 0 ∧ sinT 2 = 1 / 2 ∧ cosT 2 = -hh ∧
+          sinT 3 = -(1 / 2) ∧ cosT 3 = -hh ∧ sinT 4 = -1 ∧ cosT 4 = 0 ∧ sinT 5 = -(1 / 2) ∧ cosT 5 = hh) :
+    hexagonAt half ((R : K) * hh) sinT cosT n n 0 0 false (n / 2) (n / 2 + R) = 1 ∧
+    hexagonAt half ((R : K) * hh) sinT cosT n n (hexToRC (2 * hh) hh (3 / 2) (1, 0, -1) ((R : K) + 0 / 2) false).1
+      (hexToRC (2 * hh) hh (3 / 2) (1, 0, -1) ((R : K) + 0 / 2) false).2 false (n / 2) (n / 2 + R) = 1 := by
+  obtain ⟨s0, c0, s1, c1, s2, c2, s3, c3, s4, c4, s5, c5⟩ := hT
+  have hR : (0 : K) ≤ R := Nat.cast_nonneg R
+  have hRh : 0 ≤ (R : K) * hh := mul_nonneg hR hhpos.le
+  constructor
+  · rw [hexagonAt_eq_one_iff]
+    intro k hk
+    have h : k = 0 ∨ k = 1 ∨ k = 2 ∨ k = 3 ∨ k = 4 ∨ k = 5 := by omega
+    rcases h with rfl | rfl | rfl | rfl | rfl | rfl <;>
+      simp only [s0, c0, s1, c1, s2, c2, s3, c3, s4, c4, s5, c5, meshCoord, Gen.meshCoord] <;> push_cast <;> nlinarith
+  · rw [hexagonAt_eq_one_iff]
+    intro k hk
+    have h : k = 0 ∨ k = 1 ∨ k = 2 ∨ k = 3 ∨ k = 4 ∨ k = 5 := by omega
+    rcases h with rfl | rfl | rfl | rfl | rfl | rfl <;>
+      simp only [s0, c0, s1, c1, s2, c2, s3, c3, s4, c4, s5, c5, meshCoord, Gen.meshCoord, hexToRC, Bool.false_eq_true, if_false] <;> push_cast <;> nlinarith
+
+
+
+/-- the regenerated `hex_to_rc`, grid pitch, inner radius and size argument in the closed forms the segment theorems use (`hh = √3/2`) -/
+theorem gen_hex_forms (sqrtN : ℕ → K) (hh : K) (hs : sqrtN 3 = 2 * hh) (h : HexCell) (ρ R g : K) (rot : Bool) (k pad : ℕ) :
+    Gen.hexToRC sqrtN h ρ rot = hexToRC (2 * hh) hh (3 / 2) h ρ rot ∧
+    Gen.hexPitch R g = R + g / 2 ∧ Gen.hexInner sqrtN R = R * hh ∧
+    Gen.hexSizeArg sqrtN k pad R g = ((2 * k + 1 : ℕ) : K) * (R * hh) * 2 + ((2 * k : ℕ) : K) * g + ((pad : ℕ) : K) * 2 := by
+  refine ⟨?_, ?_, ?_, ?_⟩
+  · unfold Gen.hexToRC Gen.hexToXY hexToRC
+    cases rot
+    · simp only [Bool.false_eq_true, if_false, hs]; refine Prod.ext ?_ ?_ <;> (simp only; push_cast; ring)
+    · simp only [if_true, hs]; refine Prod.ext ?_ ?_ <;> (simp only; push_cast; ring)
+  · unfold Gen.hexPitch; push_cast; ring
+  · unfold Gen.hexInner; rw [hs]; push_cast; ring
+  · unfold Gen.hexSizeArg Gen.hexInner; rw [hs]; push_cast; ring
 
 
 theorem segCells_sum (k : Nat) (c : HexCell) (hc : c ∈ segCells k) : c.1 + c.2.1 + c.2.2 = 0 := by
